@@ -30,7 +30,7 @@ class SqliteStorage(Storage):
                                   )
         return self.db
 
-    def __db_execute(self, sql, parameters=()):
+    def __db_execute(self, sql, parameters=(), fetch=False):
         # in python 3.6, this will randomly crash unless there's a mutex involved
         # it's not supposed to be a problem... but it is
         with self._mutex:
@@ -39,6 +39,10 @@ class SqliteStorage(Storage):
             except sqlite3.OperationalError:
                 self.__db_connect()  # reconnect
                 retval = self.db.execute(sql, parameters)
+            if fetch:
+                # rows must be fetched while holding the mutex: the connection (and its statement
+                # cache) is shared by all threads
+                return retval.fetchall()
             return retval
 
     def _ensure_table_exists(self):
@@ -85,12 +89,12 @@ class SqliteStorage(Storage):
         ret = {}
         if tag is not None:
             query = 'SELECT id, tag, serialization FROM cloud WHERE tag = ?'
-            db_cursor = self.__db_execute(query, [tag])
+            rows = self.__db_execute(query, [tag], fetch=True)
         else:
             query = 'SELECT id, tag, serialization FROM cloud'
-            db_cursor = self.__db_execute(query)
+            rows = self.__db_execute(query, fetch=True)
 
-        for row in db_cursor.fetchall():
+        for row in rows:
             eid, row_tag, row_serialization = row
             if tag is not None:
                 ret[eid] = row_serialization
@@ -101,8 +105,8 @@ class SqliteStorage(Storage):
         return ret
 
     def read(self, tag: str, eid: Any) -> Optional[bytes]:
-        db_cursor = self.__db_execute('SELECT serialization FROM cloud WHERE id = ? and tag = ?', [eid, tag])
-        for row in db_cursor.fetchall():
+        rows = self.__db_execute('SELECT serialization FROM cloud WHERE id = ? and tag = ?', [eid, tag], fetch=True)
+        for row in rows:
             return row[0]
         return None
 
